@@ -39,7 +39,7 @@ def gen_model(rng, size="small", feats=None):
         "endtime": p(0.35), "maxdur": p(0.3), "maxstops": p(0.3), "maxdist": p(0.3),
         "attrs": p(0.3), "precedence": p(0.4), "no_startloc": p(0.15), "penalties": p(0.6),
         "activation": p(0.5), "nonmetric": p(0.5), "tight": p(0.5), "user": False, "groups": False, "initial": False,
-        "colocated": False, "one_vehicle": False, "fixed_p": 0.3, "dgroups": p(0.3),
+        "colocated": False, "one_vehicle": False, "fixed_p": 0.3, "dgroups": p(0.3), "objx": False,
     }
     if feats:
         F.update(feats)
@@ -270,6 +270,22 @@ def gen_model(rng, size="small", feats=None):
                 m2 -= T0
             user.append((f1, mxs[f1], False, tmp, True))
             user.append((f2, m2, True, tmp))
+    # further objective terms: early / late arrival (targets with integer penalties), min stops, stop balance
+    for s_ in stops:
+        s_["target"], s_["early_pen"], s_["late_pen"] = None, 0, 0
+    for ve in vehicles:
+        ve["min_stops"], ve["min_stops_pen"] = 0, 0
+    opts.update({"f_early": 0, "f_late": 0, "f_min_stops": 0, "f_stop_balance": 0})
+    if F["objx"]:
+        for s_ in stops:
+            if p(0.45):
+                s_["target"] = T0 + 60 * rng.randint(0, 120)
+                s_["early_pen"], s_["late_pen"] = rng.choice([0, 1, 2]), rng.choice([0, 1, 4])
+        for ve in vehicles:
+            if p(0.5):
+                ve["min_stops"], ve["min_stops_pen"] = rng.randint(0, 3), rng.choice([0, 5, 10])
+        opts.update({"f_early": rng.choice([0, 1, 2]), "f_late": rng.choice([0, 1, 2]), "f_min_stops": rng.choice([0, 1, 1]),
+                     "f_stop_balance": rng.choice([0, 1, 3])})
     return {"dgroups": dgroups, "groups": groups, "user": user, "stops": stops, "vehicles": vehicles, "units": units, "arcs": arcs, "dur": dur, "dist": dist,
             "nres": nres, "res_mode": res_mode, "opts": opts, "features": {k: bool(v) for k, v in F.items() if k != "fixed_p"}}
 
@@ -347,6 +363,12 @@ def to_json(m):
         if m["nres"] and any(q != 0 for q in s["quantity"]) or (m["nres"] and i % 2 == 0):
             js["quantity"] = res_json(m, s["quantity"])
         js["duration"] = s["duration"]
+        if s.get("target") is not None:
+            js["target_arrival_time"] = rfc(s["target"])
+            if s["early_pen"] or i % 2 == 0:
+                js["early_arrival_time_penalty"] = float(s["early_pen"])
+            if s["late_pen"] or i % 3 == 0:
+                js["late_arrival_time_penalty"] = float(s["late_pen"])
         if s["windows"]:
             if len(s["windows"]) == 1 and i % 2 == 0:
                 js["start_time_window"] = [rfc(s["windows"][0][0]), rfc(s["windows"][0][1])]
@@ -374,6 +396,9 @@ def to_json(m):
                 jv["start_level"] = res_json(m, ve["start_level"])
         if ve["start_time"] is not None:
             jv["start_time"] = rfc(ve["start_time"])
+        if ve.get("min_stops") or ve.get("min_stops_pen"):
+            jv["min_stops"] = ve["min_stops"]
+            jv["min_stops_penalty"] = float(ve["min_stops_pen"])
         if ve["end_time"] is not None:
             jv["end_time"] = rfc(ve["end_time"])
         for k, jk in (("max_duration", "max_duration"), ("max_stops", "max_stops"), ("max_distance", "max_distance"),
@@ -402,10 +427,11 @@ def to_json(m):
             "maximum_wait_vehicle": o["dis_max_wait_vehicle"], "mixing_items": False, "precedence": False,
             "vehicle_start_time": o["dis_start_time"], "vehicle_end_time": o["dis_end_time"],
             "start_time_windows": o["dis_windows"]}, "enable": {"cluster": False}},
-        "objectives": {"capacities": "", "min_stops": 0.0, "early_arrival_penalty": 0.0, "late_arrival_penalty": 0.0,
+        "objectives": {"capacities": "", "min_stops": float(o.get("f_min_stops", 0)), "early_arrival_penalty": float(o.get("f_early", 0)),
+                       "late_arrival_penalty": float(o.get("f_late", 0)),
                        "vehicle_activation_penalty": float(o["f_activation"]), "travel_duration": float(o["f_travel"]),
                        "vehicles_duration": float(o["f_vehicles_duration"]), "unplanned_penalty": float(o["f_unplanned"]),
-                       "cluster": 0.0, "stop_balance": 0.0},
+                       "cluster": 0.0, "stop_balance": float(o.get("f_stop_balance", 0))},
         "properties": {"disable": {"durations": o["dis_durations"], "stop_duration_multipliers": False,
                                    "duration_groups": bool(o.get("dis_dgroups")), "initial_solution": False}},
         "validate": {"disable": {"start_time": False, "resources": True},
@@ -446,6 +472,14 @@ def to_lines(m):
                                              " ".join("%d %d %s" % (a, bb, b(d)) for a, bb, d in u["arcs"])))
         for od in u["orders"]:
             ls.append("uorder %d %d %s" % (min(u["stops"]), len(od), " ".join(map(str, od))))
+    if m["features"].get("objx"):
+        ls.append("xopt %d %d %d %d" % (o["f_early"], o["f_late"], o["f_min_stops"], o["f_stop_balance"]))
+        for i, s in enumerate(m["stops"]):
+            if s.get("target") is not None:
+                ls.append("xstop %d %d %d %d" % (i, s["target"], s["early_pen"], s["late_pen"]))
+        for v, ve in enumerate(m["vehicles"]):
+            if ve.get("min_stops") or ve.get("min_stops_pen"):
+                ls.append("xveh %d %d %d" % (v, ve["min_stops"], ve["min_stops_pen"]))
     if m.get("dgroups"):
         ls.append("dgopt %s" % b(o.get("dis_dgroups")))
         for g, d in m["dgroups"]:
